@@ -38,6 +38,23 @@ from agilerl.typing import (
 )
 
 
+def _is_evolvable_network(net: Any) -> bool:
+    """Structural check for the EvolvableNetwork protocol. Since Python 3.12 a
+    ``runtime_checkable`` protocol looks its members up statically, which misses the
+    ``encoder`` / ``head_net`` submodules that ``nn.Module`` keeps in ``_modules``."""
+    return all(
+        hasattr(net, attr)
+        for attr in (
+            "encoder",
+            "head_net",
+            "forward_head",
+            "extract_features",
+            "build_network_head",
+            "_build_encoder",
+        )
+    )
+
+
 def share_encoder_parameters(
     policy: EvolvableNetwork, *others: EvolvableNetwork
 ) -> None:
@@ -48,9 +65,9 @@ def share_encoder_parameters(
     :param others: The other networks whose encoder parameters will be pinned to the policy.
     :type others: EvolvableNetwork
     """
-    assert isinstance(policy, EvolvableNetwork), "Policy must be an EvolvableNetwork"
+    assert _is_evolvable_network(policy), "Policy must be an EvolvableNetwork"
     assert all(
-        isinstance(other, EvolvableNetwork) for other in others
+        _is_evolvable_network(other) for other in others
     ), "All others must be EvolvableNetwork"
 
     # detaching encoder parameters from computation graph reduces
